@@ -16,11 +16,29 @@
 """
 Service exception handling (WMS exceptions, XML, in_image, etc.).
 """
+import re
 from html import escape
 
 from mapproxy.response import Response
 from mapproxy.template import template_loader
 import mapproxy.service
+
+
+# characters that are not allowed in XML 1.0 documents (not even as character references)
+_illegal_xml_chars = re.compile('[\x00-\x08\x0b\x0c\x0e-\x1f\ud800-\udfff\ufffe\uffff]')
+
+
+def escape_xml_text(text):
+    """
+    Escape `text` for an XML document: &, < and > (and quotes) are replaced by
+    entities, characters that make a document not well-formed are removed.
+
+    >>> escape_xml_text('unknown layer: <foo\\x08bar>&')
+    'unknown layer: &lt;foobar&gt;&amp;'
+    """
+    return _illegal_xml_chars.sub('', escape(text))
+
+
 get_template = template_loader(mapproxy.service.__package__, 'templates')
 
 
@@ -132,7 +150,7 @@ class XMLExceptionHandler(ExceptionHandler):
             status_code = self.status_codes.get(request_error.code, self.status_code)
 
         # escape &<> in error message (e.g. URL params)
-        msg = escape(request_error.msg)
+        msg = escape_xml_text(request_error.msg)
         result = self.template.substitute(exception=msg,
                                           code=request_error.code)
         return Response(result, mimetype=self.mimetype, content_type=self.content_type,
@@ -167,7 +185,7 @@ class OWSExceptionHandler(XMLExceptionHandler):
             status_code = self.status_codes.get(request_error.code, self.status_code)
 
         # escape &<> in error message (e.g. URL params)
-        msg = escape(request_error.msg)
+        msg = escape_xml_text(request_error.msg)
         result = self.template.substitute(exception=msg,
                                           code=request_error.code, locator=request_error.locator)
         return Response(result, mimetype=self.mimetype, content_type=self.content_type,
